@@ -100,10 +100,14 @@ def serialize_response(beh, clock, body=None):
 
 
 class Origin:
-    def __init__(self, clock=None, host="127.0.0.1", port=0):
+    def __init__(self, clock=None, host="127.0.0.1", port=0, rcvbuf=None):
         self.clock = clock or Clock()
         self.lsock = socket.socket(socket.AF_INET, socket.SOCK_STREAM)
         self.lsock.setsockopt(socket.SOL_SOCKET, socket.SO_REUSEADDR, 1)
+        if rcvbuf:
+            # a small receive buffer must be set before the connection exists (it bounds the advertised window),
+            # so that a slow-reading stub really pushes back on the sender
+            self.lsock.setsockopt(socket.SOL_SOCKET, socket.SO_RCVBUF, int(rcvbuf))
         self.lsock.bind((host, port))
         self.lsock.listen(512)
         self.host = host
